@@ -131,6 +131,7 @@ pub fn main_gen(args: &[String]) {
         let method: u16 = *[0u16, 1, 0x7f, 0x80, 0x7ff, 0x800, 0xfff, rng.gen_range(0..0x1000)].choose(&mut rng).unwrap();
         let tidv: u128 = *[0u128, 1, (1u128 << 96) - 1, rng.gen::<u128>() >> 32].choose(&mut rng).unwrap();
         let tid = TransactionId::from(tidv);
+        let extra_attr = UseCandidate::new();
         let mut b = Message::builder(MessageType::from_class_method(class, method), tid);
         let na = rng.gen_range(0..=maxattrs);
         let mut kinds: Vec<usize> = (0..20).collect();
@@ -188,6 +189,16 @@ pub fn main_gen(args: &[String]) {
             if seal & 1 != 0 { b.add_message_integrity(&c, IntegrityAlgorithm::Sha1).unwrap(); }
             if seal & 2 != 0 { b.add_message_integrity(&c, IntegrityAlgorithm::Sha256).unwrap(); }
             if seal & 4 != 0 { b.add_fingerprint().unwrap(); }
+            if seal != 0 && rng.gen_bool(0.3) {
+                // operations that must be refused on a sealed builder (and leave no trace)
+                let _ = b.add_attribute(&extra_attr);
+                let _ = b.add_raw_attribute(RawAttribute::new(AttributeType::new(0x7f7f), &[1, 2, 3]));
+                if seal & 4 != 0 {
+                    let _ = b.add_fingerprint();
+                }
+                let c2 = lib_cred(&cred);
+                let _ = b.add_message_integrity(&c2, IntegrityAlgorithm::Sha1);
+            }
             lib_len = Some(b.byte_len());
             if rng.gen_bool(0.5) {
                 b.build()
